@@ -127,8 +127,11 @@ class Sched:
 
   def __init__(self, policy=None, max_steps=200000, trace_events=False,
                quiet_logging=True, start_time=1000.0, max_vtime=200000.0, early_expiry=0.0,
-               trace_files=()):
+               trace_files=(), free_wake=False):
     self.policy = policy or Sequential()
+    # free_wake: when virtual time had to advance, every thread was blocked - which of the threads due at
+    # that instant runs first is then not a preemption of anybody (the policy is told there is no current thread)
+    self.free_wake = free_wake
     self.now = start_time
     self.t0 = start_time
     self.max_vtime = max_vtime
@@ -173,7 +176,9 @@ class Sched:
       if s.done:
         continue
       if ((s.pending_exc is not None or s.pending_call is not None) and s.deliver) or \
-          s.cond is None or s.cond():
+          s.cond is None or s.cond() or (s.wake_at is not None and s.wake_at <= self.now):
+        # (a timed wait whose time has come stays runnable until it runs, also when another thread due at
+        # the same instant was picked first)
         en.append(s)
     return en
 
@@ -211,18 +216,20 @@ class Sched:
       nxt = en[0]
     else:
       try:
-        nxt = self.policy.choose(self, en + exp, cur if (cur is not None and not cur.done) else None)
+        nxt = self.policy.choose(self, en + exp, cur if (cur is not None and not cur.done and
+                                                        not (timed_out and self.free_wake)) else None)
       except Exception as e:  # pylint: disable=broad-except
         self.failure = e      # e.g. ReplayDivergence: end the run, do not kill a controlled thread
         return None
       self.decisions.append(([s.label for s in en + exp], nxt.label,
-                             cur.name if cur is not None and not cur.done else None))
+                             cur.name if cur is not None and not cur.done and
+                             not (timed_out and self.free_wake) else None))
     if nxt.expiring:
       self.now = max(self.now, nxt.wake_at)
       timed_out = True
     for s in self.states:
       s.expiring = False
-    if timed_out:
+    if timed_out or (nxt.wake_at is not None and nxt.wake_at <= self.now):
       nxt.result = bool(nxt.cond is None or nxt.cond())
     else:
       nxt.result = True
